@@ -953,6 +953,9 @@ func TestVerifC12Confine(t *testing.T) {
 			if qi == sealAt {
 				k.setSeal(sealIdx, true)
 				sealedNow = true
+				// the path space of a SEALED namespace is still the namespace's: its parent may not mount into it (the
+				// router knows a child namespace by its sys/ mount only, which a sealed namespace does not have)
+				k.mountInside(0, sealIdx)
 			}
 			if qi == unsealAt {
 				k.setSeal(sealIdx, false)
